@@ -133,7 +133,12 @@ def ledger_case(draw):
     for cur, amt, d in extra:
         desc['directives'].append({'kind': 'price', 'date': d, 'currency': cur, 'amount': (amt, 'EUR'), 'meta': {}})
     desc['directives'].sort(key=lambda x: x['date'])
-    return {'text': ledgergen.render(desc), 'sel': draw(selection())}
+    sel = draw(selection())
+    pdates = sorted({d['date'] for d in desc['directives'] if d['kind'] == 'price'})
+    if pdates and sel['date'] is not None and draw(st.booleans()):
+        # the valuation date is the date of a price directive (the rate of that very day applies)
+        sel['date'] = draw(st.sampled_from(pdates))
+    return {'text': ledgergen.render(desc), 'sel': sel}
 
 
 def select_ir(targets, sel, group_by=None, extra_where=None):
@@ -234,6 +239,8 @@ def prop_ledger(sh, case):
         (fn('count', ['star']), 'n'),
     ]
     if dconst is not None:
+        targets += [(fn('sum', fn('convert', fn('units', P), usd, dconst)), 'sum_convert_units_d'),
+                    (fn('convert', fn('sum', fn('units', P)), usd, dconst), 'convert_sum_units_d')]
         targets += [(fn('sum', fn('value', P, dconst)), 'sum_value_d'), (fn('value', fn('sum', P), dconst), 'value_sum_d'),
                     (fn('sum', fn('convert', P, usd, dconst)), 'sum_convert_d'),
                     (fn('convert', fn('sum', P), usd, dconst), 'convert_sum_d')]
@@ -259,13 +266,15 @@ def prop_ledger(sh, case):
             'n': len(rows),
         }
         if date is not None:
+            want['sum_convert_units_d'] = inv_of((convert.convert_amount(p.units, 'USD', price_map, date) for _, p in rows), 'amount')
             want['sum_value_d'] = inv_of((convert.get_value(pos_of(p), price_map, date) for _, p in rows), 'amount')
             want['sum_convert_d'] = inv_of((convert.convert_position(pos_of(p), 'USD', price_map, date) for _, p in rows), 'amount')
         for k, w in want.items():
             if got[k] != w:
                 fails.append((f'direct:{k}', f'{sel!r}: got {got[k]!r}, want {w!r}'))
         for a, b in (('units_sum', 'sum_units'), ('cost_sum', 'sum_cost'), ('value_sum', 'sum_value'),
-                     ('convert_sum', 'sum_convert'), ('value_sum_d', 'sum_value_d'), ('convert_sum_d', 'sum_convert_d')):
+                     ('convert_sum', 'sum_convert'), ('value_sum_d', 'sum_value_d'), ('convert_sum_d', 'sum_convert_d'),
+                     ('convert_sum_units_d', 'sum_convert_units_d')):
             if a in got and got[a] != got[b]:
                 fails.append((f'homomorphism:{a}', f'{sel!r}: {a}={got[a]!r} but {b}={got[b]!r}'))
 
@@ -370,6 +379,20 @@ def prop_ledger(sh, case):
                 break
         if rows and not fails and rb[2][-1][0] != got['sum_position']:
             fails.append(('balance:last-is-not-sum', f'{sel!r}'))
+    # the only reference to balance sits behind an argument that is NULL on some rows (cost_currency of a cost-less
+    # posting): the row still counts towards the balance of the rows after it
+    ro = query(conn, select_ir([(fn('only', ['col', 'cost_currency'], B), 'o'), (['col', 'cost_currency'], 'cc')], sel))
+    if ro[0] != 'ok':
+        fails.append((exc_sig(ro[1], 'balance-only:raises'), f'{sel!r}: {ro[1]!r}'))
+    elif len(ro[2]) == len(rows):
+        running = inventory.Inventory()
+        for i, ((e, p), row) in enumerate(zip(rows, ro[2])):
+            running.add_position(p)
+            want_o = None if p.cost is None else running.get_currency_units(p.cost.currency)
+            if row[0] != want_o:
+                fails.append(('balance:single-reference-behind-null-argument', f'{sel!r} row {i}: only(cost_currency, balance) = {row[0]!r}, '
+                              f'prefix sum holds {want_o!r}'))
+                break
     # WHERE consulting balance first: the balance counts every scanned posting
     rw = query(conn, select_ir([(B, 'b'), (['col', 'account'], None)], sel, extra_where=['not', fn('empty', fn('units', B))]))
     if rw[0] != 'ok':
